@@ -247,6 +247,14 @@ func c10Stream(r *rngT, dn string, key []byte) []byte {
 				}
 			}
 			if bad && r.bool() {
+				// a forged frame (signed with another key); sometimes stamped far in the future: it must be refused and
+				// must not move the channel's replay clock
+				switch r.Intn(3) {
+				case 0:
+					v2.SignatureTimestamp = 1<<48 - 1
+				case 1:
+					v2.SignatureTimestamp = uint64(2000000+s) + 5000000
+				}
 				sign(v2, other)
 				bad = false
 				stat("c10-bad-signature")
